@@ -309,7 +309,9 @@ def is_minimal_m_separator(
 
     if z - _anterior(G, {x, y}.union(i)) != set() or not z <= r:
         return False
-    if not m_separated(G, x, y, z, directed_edge_name, bidirected_edge_name, undirected_edge_name):
+    if not m_separated(
+        G, {x}, {y}, z, directed_edge_name, bidirected_edge_name, undirected_edge_name
+    ):
         return False
 
     G_copy = G.copy()
@@ -437,7 +439,7 @@ def minimal_m_separator(
     z = _bfs_with_marks(aug_G_p, y, z_dprime)
 
     if not m_separated(
-        G_p, x, y, z, directed_edge_name, bidirected_edge_name, undirected_edge_name
+        G_p, {x}, {y}, z, directed_edge_name, bidirected_edge_name, undirected_edge_name
     ):
         return None
 
